@@ -7,6 +7,7 @@ Inductive smcase :=
 | CppW (sh : shape) (cs : list wcall) (accepted : bool)
 | CppR (sh : shape) (cs : list rcall) (accepted : bool)
 | MatW (sh : shape) (cs : list wcall) (accepted : bool)
+| MatR (sh : shape) (cs : list mcall) (accepted : bool)
 | PyW (sh : shape) (cs : list pwcall) (accepted : bool) (ends : nat)
 | PyR (sh : shape) (cs : list prcall) (accepted : bool).
 
@@ -15,6 +16,7 @@ Definition smcase_ok (c : smcase) : bool :=
   | CppW sh cs a => Bool.eqb (cppw_accepts sh cs) a
   | CppR sh cs a => Bool.eqb (cppr_accepts sh cs) a
   | MatW sh cs a => Bool.eqb (matw_accepts sh cs) a
+  | MatR sh cs a => Bool.eqb (matr_accepts sh cs) a
   | PyW sh cs a e => match pyw_run sh cs with
                      | Some (_, e') => a && Nat.eqb e e'
                      | None => negb a
